@@ -25,11 +25,12 @@ import sess_common as SC
 
 KINDS = ['itch', 'ouch', 'sqf', 'asn1']
 SLEEP_STEP = 0.00015      # one timer of a sleeping callback: a bit more than a reader poll
-# model variant, PINNED to the code as it is: does `_on_soup_close` set `closed = True` before (True, the repaired order) or after
-# (False, up to commit 35c133f) `await self._message_queue.stop()`
-CLOSED_FIRST = bool(int(os.environ.get('VERIF_APP_CLOSED_FIRST', '0')))
-# message callbacks whose cancellation clean-up awaits app.close() (deadlock with CLOSED_FIRST = False: fixes/C05-app-close-in-cancel-cleanup.md)
-GEN_CLOSE_ON_CANCEL = CLOSED_FIRST
+# model variant, PINNED to the repaired code (/repo 7eb8348): `_on_soup_close` sets `closed = True` before `await self._message_queue.stop()`.
+# The old order (after it, up to commit 35c133f) remains in the model as `closedFirst := false`, the subject of
+# Witness.C05App.C05App_witness_cleanup_close_deadlock; reverting the fix is a correspondence failure (flags) and an oracle violation.
+CLOSED_FIRST = bool(int(os.environ.get('VERIF_APP_CLOSED_FIRST', '1')))
+# message callbacks whose cancellation clean-up awaits app.close() (fixes/C05-app-close-in-cancel-cleanup.md)
+GEN_CLOSE_ON_CANCEL = True
 FALSY = 0            # token of the falsy value `{}` an ASN.1 decode error yields
 _DEFS = {}
 _ASN1_OK = None
@@ -931,17 +932,16 @@ def sc_from_json(sc):
 
 
 def corpus_scenarios(prop):
+    """application scenarios kept as regressions: corpus/<prop>/app-*.json (and those of C05 for C04 / C06 as well)"""
     import json
     from common import VERIF
     out = []
-    for p in (prop, 'C05'):
+    for p in dict.fromkeys((prop, 'C05')):
         d = os.path.join(VERIF, 'corpus', p)
         if os.path.isdir(d):
             for fn in sorted(os.listdir(d)):
                 if fn.startswith('app-') and fn.endswith('.json'):
                     out.append((sc_from_json(json.load(open(os.path.join(d, fn)))['app_scenario']), 'corpus:' + fn))
-        if p == 'C05':
-            break
     return out
 
 
